@@ -18,6 +18,7 @@ pub const SETUP: &[&str] = &[
     "(define (c06-nest n) (if (= n 0) '() (list (c06-nest (- n 1)))))",
     "(define (c06-circ) (let ((x (list 1 2))) (set-cdr! (cdr x) x) x))",
     "(define (c06-circ-car) (let ((x (list 1 2))) (set-car! x x) x))",
+    "(define (c06-rho) (let ((x (list 1 2 3 4))) (set-cdr! (cdr (cdr (cdr x))) (cdr x)) x))",
     "(define (c06-selfvec) (let ((v (vector 1 2))) (vector-set! v 0 v) v))",
     "(define c06-k #f)",
     "(+ 1 (call/cc (lambda (c) (set! c06-k c) 1)))",
@@ -192,6 +193,8 @@ pub const PALETTE: &[Pal] = &[
     // circular data (restricted, see `CIRCULAR_OK`)
     p("(c06-circ)", "list:circular", Circ, true, None),
     p("(c06-circ-car)", "list:circular-car", Circ, false, None),
+    // a cycle that does not pass through the first pair
+    p("(c06-rho)", "list:circular-after-a-prefix", Circ, true, None),
     p("(c06-selfvec)", "vec:self-containing", Circ, true, None),
 ];
 
